@@ -322,6 +322,11 @@ def finish(ctx: Ctx, search=None) -> int:
     cov.setdefault("samples", [])
     cov["broken"] = [{k: b[k] for k in ("kind", "name", "detail") if k in b} for b in ctx.broken]
     cov["known_findings_reported"] = ctx.known_hits
+    if cov.get("discharged") == 0:
+        # the proof obligations do not check on this tree: the proof-level keys would claim nothing; the run is documented by its exploration counts
+        cov["discharged_this_run"] = 0
+        cov["explanation"] = "proof obligations broken on this tree (see 'broken'); the failing-input search below is what this run covered"
+        del cov["discharged"]
     if ctx.attempt:
         ctx.notes.append(f"{ctx.attempt} earlier attempt(s) of this run were killed inside a C library (GLPK abort); this one uses another case stream")
     if ctx.notes:
